@@ -109,6 +109,16 @@ class Schema:
         self.opaque_calls = kw.get("opaque_calls", {})
         self.param_types = kw.get("param_types", {})
         self.ignored_calls = kw.get("ignored_calls", set())   # statement calls whose effect lies outside the model
+        # {python expression text: (lean field, lean type)}: any expression (a dict lookup, an attribute of a
+        # collaborator, ...) the model keeps as one field of Obj; may be read and, if it is a valid target, assigned
+        self.aliases = kw.get("aliases", {})
+        # {callee attribute name: label}: calls on collaborators whose only modelled effect is that they happened;
+        # translated as appending the label to `o.effects : List String`
+        self.effect_calls = kw.get("effect_calls", {})
+        # [(container text, attribute or None, lean field, index type, value type)]: `container[i].attr` (or
+        # `container[i]`) is the function field `field : index type → value type` applied to i; assignable
+        self.indexed = kw.get("indexed", [])
+        self.num = kw.get("num", "Int")                       # lean type numbers are read as ("Int" or "Rat")
         self.ann_types = dict({"int": "Int", "float": "Int", "bool": "Bool", "date": "Int", "str": "Nat",
                                "None": "Unit"}, **kw.get("ann_types", {}))
 
@@ -129,10 +139,24 @@ class Schema:
                 out.append((self.record_prefix[rn] + "_" + a, t))
         for f, t in self.env_fields().items():
             out.append((f, t))
+        seen = {f for f, _ in out}
+        for f, t in self.aliases.values():
+            if f not in seen:
+                seen.add(f)
+                out.append((f, t))
+        for _c, _a, f, it, vt in self.indexed:
+            if f not in seen:
+                seen.add(f)
+                out.append((f, f"{self.lean_type(it)} → {self.lean_type(vt)}"))
+        if self.effect_calls:
+            out.append(("effects", "List String"))
         return out
 
+    def has_function_fields(self):
+        return bool(self.indexed)
+
     def lean_type(self, t):
-        return {"OptInt": "Option Int", "OptNat": "Option Nat"}.get(t, t)
+        return {"Int": self.num, "OptInt": "Option " + self.num, "OptNat": "Option Nat"}.get(t, t)
 
 
 class Translator:
@@ -185,7 +209,8 @@ class Translator:
         lines = [f"structure {self.obj} where"]
         for f, t in self.schema.obj_fields():
             lines.append(f"  {f} : {self.schema.lean_type(t)}")
-        lines.append("  deriving DecidableEq, Repr, Inhabited")
+        lines.append("  deriving Inhabited" if self.schema.has_function_fields()
+                     else "  deriving DecidableEq, Repr, Inhabited")
         return "\n".join(lines)
 
     def defs_text(self):
@@ -281,8 +306,25 @@ class MethodTr:
             return "Int"
         self.fail(fn, "cannot infer the return type")
 
+    def indexed_match(self, e):
+        """(field, index expr, index type, value type) when `e` is `container[i].attr` / `container[i]` of the schema"""
+        attr, sub = None, e
+        if isinstance(e, ast.Attribute) and isinstance(e.value, ast.Subscript):
+            attr, sub = e.attr, e.value
+        if not isinstance(sub, ast.Subscript):
+            return None
+        cont = ast.unparse(sub.value)
+        for c, a, f, it, vt in self.schema.indexed:
+            if c == cont and a == attr:
+                return f, sub.slice, it, vt
+        return None
+
     # -------------------------------------------------------------- types
     def typeof(self, e):
+        if not isinstance(e, ast.Constant) and ast.unparse(e) in self.schema.aliases:
+            return self.schema.aliases[ast.unparse(e)][1]
+        if self.indexed_match(e):
+            return self.indexed_match(e)[3]
         if isinstance(e, ast.Constant):
             if isinstance(e.value, bool):
                 return "Bool"
@@ -328,6 +370,8 @@ class MethodTr:
     def call_kind(self, e):
         f = e.func
         if isinstance(f, ast.Attribute):
+            if f.attr in self.schema.effect_calls:
+                return ("effect", f.attr)
             if isinstance(f.value, ast.Name) and f.value.id == "self":
                 if f.attr in self.schema.opaque_calls:
                     return ("opaque", f.attr)
@@ -387,13 +431,21 @@ class MethodTr:
             if t == inner:
                 return f"(some {self.val(e)})"
             self.fail(e, f"cannot store a value of type {t} in {expect}")
+        if not isinstance(e, ast.Constant) and ast.unparse(e) in self.schema.aliases:
+            return f"o.{self.schema.aliases[ast.unparse(e)][0]}"
+        im = self.indexed_match(e)
+        if im:
+            f, idx, it, vt = im
+            if self.typeof(idx) != it:
+                self.fail(e, f"index of type {self.typeof(idx)} where {it} is declared")
+            return f"(o.{f} {self.val(idx)})"
         if isinstance(e, ast.Constant):
             if isinstance(e.value, bool):
                 return "true" if e.value else "false"
             if isinstance(e.value, int):
-                return f"({e.value} : Int)" if e.value >= 0 else f"(-{-e.value} : Int)"
+                return f"({e.value} : {self.schema.num})" if e.value >= 0 else f"(-{-e.value} : {self.schema.num})"
             if isinstance(e.value, float) and e.value == int(e.value):
-                return f"({int(e.value)} : Int)"
+                return f"({int(e.value)} : {self.schema.num})"
             self.fail(e, f"constant {e.value!r}")
         if isinstance(e, ast.Name):
             if e.id in self.locals:
@@ -426,9 +478,9 @@ class MethodTr:
                 return f"({a} - {b})"
             if isinstance(e.op, ast.Mult):
                 return f"({a} * {b})"
-            if isinstance(e.op, ast.FloorDiv):
+            if isinstance(e.op, ast.FloorDiv) and self.schema.num == "Int":
                 return f"(Int.fdiv {a} {b})"
-            if isinstance(e.op, ast.Mod):
+            if isinstance(e.op, ast.Mod) and self.schema.num == "Int":
                 return f"(Int.fmod {a} {b})"
             self.fail(e, "operator " + type(e.op).__name__)
         if isinstance(e, ast.UnaryOp):
@@ -458,7 +510,7 @@ class MethodTr:
                 if len(e.args) != 2 or e.keywords:
                     self.fail(e, k[0] + " with other than two arguments")
                 return f"({k[0]} {self.val(e.args[0])} {self.val(e.args[1])})"
-            if k[0] == "abs":
+            if k[0] == "abs" and self.schema.num == "Int":
                 return f"(Int.natAbs {self.val(e.args[0])} : Int)"
             if k[0] in ("self", "super"):
                 name, argtxt, pure = self.method_call(e, k)
@@ -470,6 +522,10 @@ class MethodTr:
 
     def prop(self, e):
         """test-position translation (a Lean Prop with a Decidable instance)"""
+        if not isinstance(e, ast.Constant) and ast.unparse(e) in self.schema.aliases:
+            if self.schema.aliases[ast.unparse(e)][1] != "Bool":
+                self.fail(e, "test on a non-boolean alias")
+            return f"(o.{self.schema.aliases[ast.unparse(e)][0]} = true)"
         if isinstance(e, ast.BoolOp):
             op = " ∧ " if isinstance(e.op, ast.And) else " ∨ "
             for v in e.values:
@@ -484,6 +540,31 @@ class MethodTr:
             if len(e.ops) != 1:
                 self.fail(e, "chained comparison")
             l, r, op = e.left, e.comparators[0], e.ops[0]
+            if isinstance(l, ast.Tuple) and isinstance(r, ast.Tuple) and len(l.elts) == 2 and len(r.elts) == 2:
+                # lexicographic order on pairs of numbers
+                a, b, c, dd = (self.val(x) for x in (l.elts[0], l.elts[1], r.elts[0], r.elts[1]))
+                for x in l.elts + r.elts:
+                    if self.typeof(x) != "Int":
+                        self.fail(e, "tuple comparison on non-numbers")
+                strict = {ast.LtE: "≤", ast.Lt: "<", ast.GtE: "≥", ast.Gt: ">"}.get(type(op))
+                if strict is None:
+                    self.fail(e, "tuple comparison operator")
+                first = "<" if strict in ("≤", "<") else ">"
+                return f"(({a} {first} {c}) ∨ (({a} = {c}) ∧ ({b} {strict} {dd})))"
+            if (isinstance(op, (ast.Is, ast.IsNot)) and isinstance(r, ast.Constant) and isinstance(r.value, bool)):
+                # `x is False` on a value the translation types as Bool (a numpy.bool_ would behave differently:
+                # the schema's typing is part of the trusted base)
+                if isinstance(l, ast.Call) and self.call_kind(l)[0] in ("self", "super"):
+                    name, argtxt, pure = self.method_call(l, self.call_kind(l))
+                    if not pure or self.tr.sigs[name][1] != "Bool":
+                        self.fail(e, "`is <bool>` on a call that is not a pure boolean method")
+                    lv = f"({name} o{argtxt}).2"
+                elif self.typeof(l) == "Bool":
+                    lv = self.val(l)
+                else:
+                    self.fail(e, "`is <bool>` on a non-boolean")
+                want = "true" if r.value else "false"
+                return f"({lv} = {want})" if isinstance(op, ast.Is) else f"({lv} ≠ {want})"
             tl, tr_ = self.typeof(l), self.typeof(r)
             special = None
             for t in (tl, tr_):
@@ -509,6 +590,24 @@ class MethodTr:
         if self.typeof(e) == "Bool":
             return f"({self.val(e)} = true)"
         self.fail(e, "test on a non-boolean (Python truthiness is not translated)")
+
+    def effect_label(self, call):
+        """label of an effect call: the schema's label, the receiver when it is a local obtained from an
+        earlier effect call (`@$<that label>`), and the arguments: a local obtained from an effect call is
+        written `$<that label>`, a constructor call `new <Class>`, anything else as written"""
+        lab = self.schema.effect_calls[call.func.attr]
+        bound = getattr(self, "effect_locals", {})
+
+        def show(a):
+            if isinstance(a, ast.Name) and a.id in bound:
+                return "$" + bound[a.id]
+            if isinstance(a, ast.Call) and isinstance(a.func, ast.Name) and a.func.id[:1].isupper():
+                return "new " + a.func.id
+            return ast.unparse(a)
+        recv = call.func.value
+        at = "@$" + bound[recv.id] if isinstance(recv, ast.Name) and recv.id in bound else ""
+        args = [show(a) for a in call.args] + [f"{k.arg}={show(k.value)}" for k in call.keywords]
+        return (lab + at + "(" + ", ".join(args) + ")").replace('"', "'")
 
     def method_call(self, e, k):
         name = self.tr.need(self.final, k[1], self.owner if k[0] == "super" else None)
@@ -556,7 +655,8 @@ class MethodTr:
         if isinstance(s, ast.Pass):
             return self.block(rest, d)
         if isinstance(s, ast.Return):
-            if s.value is None:
+            if s.value is None or (isinstance(s.value, ast.Constant) and s.value.value is None
+                                   and self.ret == "Unit"):
                 if self.ret != "Unit":
                     self.fail(s, "bare return in a function that returns a value")
                 return f"{self.ind(d)}(o, ())"
@@ -600,6 +700,10 @@ class MethodTr:
                 name, argtxt, pure = self.method_call(s.value, k)
                 return f"{self.ind(d)}let o := ({name} o{argtxt}).1\n{self.block(rest, d)}"
             f = s.value.func
+            if isinstance(f, ast.Attribute) and f.attr in self.schema.effect_calls:
+                self.pure = False
+                lab = self.effect_label(s.value)
+                return f"{self.ind(d)}let o := {{ o with effects := o.effects ++ [\"{lab}\"] }}\n{self.block(rest, d)}"
             if isinstance(f, ast.Attribute) and f.attr in self.schema.ignored_calls:
                 self.tr.ignored.append(f"{self.owner}.{self.method}:{s.lineno}: {ast.unparse(f)}")
                 return self.block(rest, d)
@@ -619,6 +723,22 @@ class MethodTr:
                 value = ast.BinOp(left=target, op=s.op, right=s.value)
                 ast.copy_location(value, s)
             # where does it go?
+            im = self.indexed_match(target)
+            if im:
+                f, idx, it, vt = im
+                if self.typeof(idx) != it or self.typeof(value) != vt:
+                    self.fail(s, "types of an indexed assignment")
+                self.pure = False
+                i, v = self.val(idx), self.val(value)
+                return (f"{self.ind(d)}let o := {{ o with {f} := fun k => if k = {i} then {v} else o.{f} k }}\n"
+                        f"{self.block(rest, d)}")
+            if ast.unparse(target) in self.schema.aliases:
+                fld, ft = self.schema.aliases[ast.unparse(target)]
+                self.pure = False
+                v = self.val(value, ft if ft in self.schema.enums or ft.startswith("Opt") else None)
+                if not (ft in self.schema.enums or ft.startswith("Opt")) and self.typeof(value) != ft:
+                    self.fail(s, f"value of type {self.typeof(value)} stored in {ast.unparse(target)} : {ft}")
+                return f"{self.ind(d)}let o := {{ o with {fld} := {v} }}\n{self.block(rest, d)}"
             if isinstance(target, ast.Attribute) and isinstance(target.value, ast.Name):
                 base = target.value.id
                 if base == "self":
@@ -644,6 +764,16 @@ class MethodTr:
                     if not (ft in self.schema.enums or ft.startswith("Opt")) and self.typeof(value) != ft:
                         self.fail(s, f"value of type {self.typeof(value)} stored in a field of type {ft}")
                 return f"{self.ind(d)}let o := {{ o with {fld} := {v} }}\n{self.block(rest, d)}"
+            if (isinstance(target, ast.Name) and isinstance(value, ast.Call)
+                    and isinstance(value.func, ast.Attribute) and value.func.attr in self.schema.effect_calls):
+                # a collaborator object obtained through a call that is itself an effect (e.g. a plan popped from
+                # a pool): the name is not bound; what the code reads from it must be declared as aliases
+                self.pure = False
+                lab = self.effect_label(value)
+                if not hasattr(self, "effect_locals"):
+                    self.effect_locals = {}
+                self.effect_locals[target.id] = self.schema.effect_calls[value.func.attr]
+                return f"{self.ind(d)}let o := {{ o with effects := o.effects ++ [\"{lab}\"] }}\n{self.block(rest, d)}"
             if isinstance(target, ast.Name):
                 if isinstance(value, ast.Call) and self.call_kind(value)[0] in ("self", "super"):
                     name, argtxt, pure = self.method_call(value, self.call_kind(value))
